@@ -50,6 +50,12 @@ def classify(files, why):
     if "Empty schema" in why and ("ToJson fails" in why or "ToJsonIndent failed" in why):
         return "empty-schema-accepted-at-build"
     if b"Path" in text and ("ToJson fails" in why or "ToJsonIndent failed" in why):
+        # F9 is about faults the document really has in a Path body (a value that breaks its rule, a
+        # type that is declared nowhere); a DECLARED type that serialisation cannot find is something else
+        import re
+        m = re.search(r'Type \\?"(@[^"\\]+)\\?" not found', why)
+        if m and re.search(rb"^\s*TYPE\s+" + re.escape(m.group(1).encode()) + rb"\b", text, re.M):
+            return "other"
         return "path-schema-not-validated-at-build"
     return "other"
 
